@@ -1541,6 +1541,11 @@ impl AnnotationStore {
         builders: Vec<SelectorBuilder>,
         textual_order: bool,
     ) -> Result<Vec<Selector>, StamError> {
+        if builders.is_empty() {
+            return Err(StamError::WrongSelectorType(
+                "Complex selectors must have at least one subselector",
+            ));
+        }
         let mut tmp = Vec::with_capacity(builders.len());
         for builder in builders {
             if builder.is_complex() {
